@@ -53,7 +53,7 @@ class Body:
 
 
 _HDR_FN = re.compile(r"^fn (.+?)\((.*)\) -> (.+) \{$")
-_HDR_CONST = re.compile(r"^const (.+?): (.+) = \{$")
+_HDR_CONST = re.compile(r"^const (.+): (.+?) = \{$")
 
 
 def _split_top(s, sep=","):
